@@ -130,6 +130,8 @@ type World struct {
 	gateMu   sync.Mutex // serialises nested (gate) steps with the end of the outer call
 	active   int        // call id of the API call the actor is currently inside (0 = none)
 	ReadErrs int
+	// Frozen is the trace as it was when the case ended (set by Release)
+	Frozen []*Entry
 	// Auditor resolves leftovers and reads the truth in Finish (default: the last client)
 	Auditor *Client
 	// number of traced RPCs the last DrainArmed commit issued (synchronous + background)
@@ -643,6 +645,23 @@ func (w *World) Finish() (*Truth, error) {
 	}
 	w.Cl.Drain(3*time.Millisecond, 3*time.Second)
 	return w.Cl.ReadTruth(aud, w.Keys)
+}
+
+// Release ends the client-side life of every transaction that was left open because its client "died": their
+// ttl managers would otherwise keep beating (and keep the whole cluster reachable) for up to an hour. It is
+// called after the verdict, so the failing requests it triggers on dead clients are of no consequence.
+func (w *World) Release() {
+	if w.Frozen == nil {
+		w.Frozen = w.Cl.Trace.Since(0) // what the oracles judge: nothing sent from here on belongs to the case
+	}
+	for id, h := range w.handles {
+		if t := w.Txns[id]; t != nil && (t.Ended == "" || t.Ended == "killed") && h.Valid() {
+			if h.IsInAggressiveLockingMode() {
+				h.CancelAggressiveLocking(context.Background())
+			}
+			_ = h.Rollback()
+		}
+	}
 }
 
 // Leftover is a lock found in the store that belongs to a transaction which has already ended.
